@@ -15,7 +15,7 @@ func GenerateScalarIntersectSetRule(containsSome profile.ScalarSetRule, iriExpan
 	actualValuesVariable := profile.Genvar(fmt.Sprintf("%s_check", containsSome.Variable.Name))
 	containsSomeVariable := profile.Genvar("containsSome")
 
-	rego = append(rego, "#  querying path: "+path.Source())
+	rego = append(rego, queryingPathComment(path.Source()))
 	pathResult := GeneratePropertySet(path, containsSome.Variable.Name, iriExpander)
 	rego = append(rego, fmt.Sprintf("%s_array = %s with data.sourceNode as %s", actualValuesVariable, pathResult.rule, containsSome.Variable.Name))
 	rego = append(rego, fmt.Sprintf("count(%s_array) != 0 # validation applies if property was defined", actualValuesVariable))
